@@ -8,4 +8,4 @@ Extraction "io_model.ml" all_types split_lines norm want slice lbuf_make lbuf_rd
   write_fully write_all fs_get fs_set fs_mtime fs_content lbuf_save ec_write ec_quit quit_loop refuses
   lk_get resolve target mtime_of lbuf_save_l ec_edit_l ec_write_l quit_loop_l ec_quit_l foreign foreign_run
   path_of_arg bufs_find bufs_switch bufs_push excuse_stamp ec_write_t ec_quit_t ec_edit_t
-  bufs_modified bufs_modified_eager bufs_modified_kept step start run.
+  bufs_modified bufs_modified_eager bufs_modified_stale step start run.
